@@ -1392,6 +1392,7 @@ namespace pika::threads::detail {
         // Inform the scheduler to suspend the virtual core only if running
         pika::runtime_state expected = runtime_state::running;
         state.compare_exchange_strong(expected, runtime_state::pre_sleep);
+        PIKA_VERIF_POINT("pool.pu.presleep", this, virt_core, static_cast<int>(expected));
 
         l.unlock();
 
